@@ -79,8 +79,9 @@ struct Stress {
         for (volatile unsigned i = 0; i < n; i++) {}
     }
     bool wait_gen(long g) {
-        while (gen.load(std::memory_order_acquire) != g) {
+        for (unsigned i = 0; gen.load(std::memory_order_acquire) != g; i++) {
             if (quit.load()) return false;
+            if ((i & 255) == 255) std::this_thread::yield();   // the machine may be oversubscribed
         }
         return true;
     }
@@ -129,6 +130,7 @@ static bool wait_until(std::atomic<int> &a, int target, int ms) {
     auto t0 = std::chrono::steady_clock::now();
     for (unsigned i = 0;; i++) {
         if (a.load(std::memory_order_acquire) >= target) return true;
+        if ((i & 255) == 255) std::this_thread::yield();
         if ((i & 1023) == 0 &&
             std::chrono::steady_clock::now() - t0 > std::chrono::milliseconds(ms))
             return false;
